@@ -205,6 +205,11 @@ impl ExchangeId {
             })
             .await;
 
+        // The predicate above also fires when our session is gone, in which case
+        // the TX buffer may hold a packet queued by somebody else and not sent yet:
+        // bail out without touching it
+        self.with_state(matter, |_| Ok(()))?;
+
         // TODO: Resizing might be a bit expensive with large buffers
         unwrap!(packet.buf.resize_default(MAX_TX_BUF_SIZE));
 
@@ -215,8 +220,6 @@ impl ExchangeId {
             matter,
             packet,
         };
-
-        self.with_state(matter, |_| Ok(()))?;
 
         Ok(tx)
     }
